@@ -9,6 +9,13 @@
    (by hash) by an upload that also appends: forced re-uploads, free without cleanup, refused uploads in between.
    Between the placement decision and cleanup()/_amend_segments the re-used slot is protected only by the reference
    count that upload() adds right after the decision.
+
+Round 5:
+3. `short_in_hole_family`: a SHORTER segment is written into a larger unreferenced hole (defined length < capacity of the
+   slot) and a later upload appends on the refusal threshold: the append fits exactly / is one point short / is short by the
+   slack of the hole (capacity - defined length) / by one more.  The memory in front of the append position is the sum of
+   the slot CAPACITIES; whoever computes it from the defined lengths accepts the appends in between (seed C19-8, which the
+   quick tier caught only as model != code on the lens family plus a search, not as a violated clause of a generated case).
 """
 import itertools
 
@@ -172,4 +179,30 @@ def lens_family():
     H(base + [['remove', 2], U(5, [[16, 1000]]), ['remove', 5], ['remove', 4], ['remove', 3], U(6, [[24, 192]])])
     H(base + [U(4, [[15, 224], [16, 1000]], True)])                 # forced re-upload re-using a shorter-defined slot + append
     H(base + [U(3, [[25, 400]], True), U(5, [[16, 1000]])])         # the slot gets a full-length segment again
+    return out
+
+
+def short_in_hole_family():
+    """see module docstring, 3."""
+    out = []
+
+    def H(ops, total):
+        out.append({'kind': 'hist', 'total': total, 'ops': ops, 'note': 'short-in-hole-family'})
+    U = lambda name, segs, force=False: ['upload', name, [list(s) for s in segs], force]
+    for c, l in ((320, 256), (400, 208), (384, 368)):            # hole capacity, shorter segment; slack 64 / 192 / 16
+        A, B, C = [31, c], [32, 192], [33, l]
+        used = 192 + c + 192                                     # idle slot, the hole, B
+        for tail in ([[34, 336]], [[34, 192]], [[34, 208], [35, 224]]):
+            need = sum(n + 16 for _, n in tail)
+            for delta in (0, 1, c - l, c - l + 1):
+                # delta = 0: the append fits exactly; delta >= 1: it must be refused
+                H([U(1, [A]), U(2, [B]), ['remove', 1], U(3, [C]), U(4, tail)], used + need - delta)
+        # the shorter segment arrives by a forced re-upload of the program that owned the hole
+        for delta in (0, 1, c - l):
+            H([U(1, [A]), U(2, [B]), U(1, [C], True), U(4, [[34, 336]])], used + 352 - delta)
+        # two holes, both filled with shorter segments (slack adds up), then the append
+        D, E = [36, c], [37, l - 16]
+        for delta in (0, 1, 2 * (c - l) + 16):
+            H([U(1, [A]), U(5, [D]), U(2, [B]), ['remove', 1], ['remove', 5], U(3, [C, E]), U(4, [[34, 336]])],
+              192 + 2 * c + 192 + 352 - delta)
     return out
